@@ -1,22 +1,47 @@
 """C21 Work is conserved and capacity is respected over time.
 
 G+T: spec/surf/Timeline.tla is the reference timeline of a generated concurrent workload (execs with bounds, priorities
-and several threads on multi-core hosts, comms sharing links over multi-link routes, I/Os sharing disks). TLC runs every
-scenario and checks on the specification itself (TimelineRun): Conservation (received + remaining = amount, remaining
->= 0, done iff remaining = 0), Feasible (rates within bounds and capacities), EqualExecs (k equal single-thread execs
-on an n-core host of speed S progress at S*min(1, n/k)) and Mono (remaining never increases), and prints the exact
-state after every step. The driver logs, at every Engine::on_time_advance, the remaining work of every activity in
-progress (model action remains, i.e. Activity::get_remaining), Host::get_load, Link::get_load and the current
-capacities. Python checks on the observed run: remaining never increases, is positive before and exactly zero at the
-completion date, equals the reference remaining at every date (1e-9), loads equal the reference loads and never
-exceed the capacity, finish dates equal the reference.
+and several threads on multi-core hosts, comms sharing links over multi-link routes, I/Os sharing disks). The capacity of
+a host is the *current* one, cores * peak speed of the current pstate * availability scale of the current date
+(Timeline!HostCap): a third of the scenarios run on hosts with a speed profile (Host::set_speed_profile with a profile
+built by ProfileBuilder::from_string, one-shot or periodic, in half of the cases a scale < 1 from date 0 on) and / or
+scripted Host::set_pstate calls, with more concurrent single-core execs than cores most of the time; every change date
+is a step of the timeline at which the running execs are shared again. TLC runs every scenario and checks on the
+specification itself (TimelineRun): Conservation (received + remaining = amount, remaining >= 0, done iff remaining =
+0), Feasible (rates within bounds and current capacities), EqualExecs (k equal single-thread execs on an n-core host of
+current speed S progress at S*min(1, n/k)), Mono (remaining never increases) and LoadWithin (the loads of an elapsed
+interval within the capacities in force during that interval), and prints the exact state after every step. The driver
+logs, at every Engine::on_time_advance, the remaining work of every activity in progress (model action remains, i.e.
+Activity::get_remaining), Host::get_load, Link::get_load, and the current peak speed, availability and capacity of every
+host (also before the run and after each set_pstate, so that the capacity in force during every interval is known).
+Python checks on the observed run: remaining never increases, is positive before and exactly zero at the completion
+date, equals the reference remaining at every date (1e-9); loads equal the reference loads and never exceed the capacity
+of the elapsed interval (the one the implementation reported and the one of the reference); availability and capacity
+read at every date equal the reference ones; finish dates equal the reference.
 
-Mutations tried (tools/mutbuild.sh, quick tier):
+Host::get_load read when the clock has just moved (and by any actor at that date) is the load of the interval that just
+ended: SimGrid recomputes the shares at the next solve only. At a date where the scale drops it is therefore larger than
+cores * get_speed() * get_available_speed() read at the same moment; the check holds it against the capacity of the
+interval it belongs to.
+
+Disk I/Os: the disk model rounds the progress of every step to whole bytes; the reference flags (Timeline!whole) the
+first step that does not move whole bytes; up to there the comparison is exact, after it the I/Os of that scenario are
+compared within the bound derived from the rounding (io_slack). (Before, the generator was only believed to keep every
+step integral: seed 2 of the extended generator drew a two-disk scenario that does not, 3e-7 s off at 132 s.)
+
+Mutations tried (quick tier):
   * CpuImpl.cpp: capacity of a multi-core host = (cores + 1) * speed: CAUGHT (exit 1)
   * Model.cpp (next_occurring_event_lazy): remaining work not brought up to date when the share of an action changes:
     MISSED by the first version of this check, which read the remaining work at every clock advance - reading it
     (Action::get_remains) itself updates a lazy action, which hides the defect. The check now reads it at every third
     advance only in half of the runs; that version could not be re-run against the mutation (the machine was heavily loaded; the coordinator stopped the mutation experiments before the whole list was run).
+  * cpu_cas01.cpp (CpuCas01::on_speed_change): constraint bound recomputed as cores * get_speed(1.0), i.e. without the
+    availability scale of the speed profile (/tmp/seed/C21/patch.diff): MISSED before hosts with speed profiles were
+    generated; CAUGHT now (exit 1, 20 scenarios of seed 0: execs finish too early, load above the capacity)
+  * cpu_cas01.cpp (CpuCas01::on_speed_change): bound of the running execs recomputed as threads * peak speed (without the
+    availability scale): CAUGHT (exit 1)
+  * cpu_cas01.cpp (CpuCas01::execution_start): bound of a new exec = peak speed (without the availability scale): CAUGHT
+    (exit 1)
 """
 import json
 from fractions import Fraction as F
@@ -25,16 +50,103 @@ import surf_common as S
 
 LEVEL = "model_checking"
 DRIVERS = S.DRIVERS
-META = {"text": "Timeline.tla is the reference timeline of generated concurrent workloads; TLC checks on it, in every state of every scenario, work conservation, feasibility of the rates, the k-equal-execs-on-n-cores rule and monotonicity of the remaining work, and prints the exact state after every step; the real models, observed at every Engine::on_time_advance (remaining work, host and link loads, capacities), must never show an increasing remaining work, a positive one before completion or a non-zero one at completion, a load above the capacity, and must match the reference remaining work, loads and finish dates (1e-9).",
-        "note": "Trusted: TLC, the driver (model action remains = Activity::get_remaining, Host::get_load, Link::get_load), the documented weighted max-min sharing rule used by the reference (the solver itself is decided by C15-C18). Reading the remaining work updates a lazily updated action: half of the runs read it at every third clock advance only. Disk workloads are restricted to parameters for which the whole-byte rounding of disk_s19.cpp is exact; disk loads are not observable.",
+META = {"text": "Timeline.tla is the reference timeline of generated concurrent workloads, a third of them on hosts whose capacity cores x peak speed(pstate) x availability(t) changes over time (speed profiles, one-shot or periodic, with a scale < 1 from date 0 or changing while execs run; scripted set_pstate; more single-core execs than cores); TLC checks on it, in every state of every scenario, work conservation, feasibility of the rates against the current capacities, the k-equal-execs-on-n-cores rule at the current speed, monotonicity of the remaining work and loads within the capacity of every elapsed interval, and prints the exact state after every step; the real models, observed at every Engine::on_time_advance (remaining work, host and link loads, peak speed, availability, capacity), must never show an increasing remaining work, a positive one before completion or a non-zero one at completion, a load above the capacity of the interval it belongs to, and must match the reference remaining work, loads, availabilities, capacities and finish dates (1e-9).",
+        "note": "Trusted: TLC, the driver (model action remains = Activity::get_remaining, Host::get_load, Link::get_load), the documented weighted max-min sharing rule used by the reference (the solver itself is decided by C15-C18). Reading the remaining work updates a lazily updated action: half of the runs read it at every third clock advance only. Host::get_load read at a date is the load of the interval that just ended (shares are recomputed by the next solve): it is held against the capacity of that interval. Disk workloads use parameters for which the whole-byte rounding of disk_s19.cpp is mostly exact; the reference flags the first step that is not, from which on the I/Os of that scenario are compared within a bound derived from the rounding; disk loads are not observable. Availability scales are dyadic (1/8..1), never 0; state profiles (host failures) belong to C22.",
         "technique": "TLC runs the reference timeline with invariants (M) and prints exact states (G) + observation of the real models at every time advance (T, surf_driver) + exact rational/double comparison"}
 NETCFG = ["--cfg=network/model:CM02", "--cfg=network/TCP-gamma:0", "--cfg=network/crosstraffic:0"]
 G = F(1, 8)
 CAP_TOL = F(1, 10 ** 9)
 
 
+SCALES = [F(1, 2), F(1, 2), F(3, 4), F(1, 4), F(1), F(1, 8)]      # availability scales (dyadic: exact doubles)
+
+
+def gen_speed_profile(rng, horizon=12):
+    """Availability (speed) profile of a host: 1-4 points on the 1/8 s grid; in half of the cases the first point is at
+    date 0 with a scale < 1 (the host is slowed down from the start); one-shot or periodic (period 1-4 s)."""
+    periodic = rng.random() < 0.5
+    span = rng.choice([1, 2, 3, 4]) if periodic else horizon
+    slots = int(span / G)
+    npts = rng.randint(1, 4) if periodic or rng.random() < 0.7 else 1
+    ticks = set()
+    if rng.random() < 0.5:
+        ticks.add(0)
+    while len(ticks) < npts:
+        ticks.add(rng.randrange(0 if rng.random() < 0.1 else 1, min(slots, 4 * 8 if not periodic and rng.random() < 0.7 else slots)))
+    pts, last = [], F(1)
+    for t in sorted(ticks):
+        v = rng.choice([x for x in SCALES if x != last and (t > 0 or x < 1)])
+        pts.append((t * G, v))
+        last = v
+    return S.profile(pts, period=span if periodic else 0, init=1)
+
+
+def gen_avail(rng, equal):
+    """Workloads on hosts whose capacity cores * peak(pstate) * scale(t) changes over time: speed profiles and / or
+    scripted pstate changes, with more concurrent single-core execs than cores most of the time."""
+    hosts, acts, events = [], [], []
+    nh = 1 if equal else rng.randint(1, 2)
+    for _ in range(nh):
+        base = rng.choice([4, 8, 12, 16])
+        nps = rng.choice([1, 1, 2, 3])
+        speeds = [F(base)] + [F(base) / d for d in rng.sample([2, 4, F(4, 3)], nps - 1)]
+        x = rng.random()
+        sprof = gen_speed_profile(rng) if (x < 0.8 or nps == 1) else None
+        hosts.append(S.new_host(speeds, cores=rng.choice([1, 2, 2, 3, 4]), sprof=sprof))
+    for h in range(1, nh + 1):
+        nps = len(hosts[h - 1]["speeds"])
+        if nps > 1:
+            for _ in range(rng.randint(1, 3)):
+                events.append(S.new_event(rng.randrange(0 if rng.random() < 0.2 else 1, 6 * 16) * G / 2, "pstate", h, v=rng.randint(1, nps)))
+    if equal:
+        # the special case of the statement on a host of changing speed: k equal single-core execs, k > n most of the time
+        n = hosts[0]["cores"]
+        k = rng.randint(n + 1, n + 4) if rng.random() < 0.8 else rng.randint(1, n)
+        amount = rng.choice([8, 12, 24, 48])
+        start = 0 if rng.random() < 0.5 else G * rng.randint(1, 8)
+        for _ in range(k):
+            acts.append(S.new_act("exec", start if rng.random() < 0.8 else G * rng.randint(0, 12), amount, host=1))
+        return S.new_scen(hosts, [], [], acts, events, [])
+    for h in range(1, nh + 1):
+        cores = hosts[h - 1]["cores"]
+        speed = hosts[h - 1]["speeds"][0]
+        for _ in range(rng.randint(cores, cores + 3) if nh == 1 else rng.randint(1, min(cores + 2, 4))):
+            start = rng.randrange(0, 24) * G if rng.random() < 0.5 else F(0)
+            plain = rng.random() < 0.7          # single core, no bound, priority 1
+            threads = 1 if plain else rng.choice([1, 1, 2, 3])
+            bound = F(0) if plain or threads > 1 or rng.random() < 0.5 else speed * rng.choice([F(1, 4), F(1, 2), F(3, 4)])
+            acts.append(S.new_act("exec", start, rng.choice([4, 6, 8, 12, 18, 24, 36]) * threads, host=h, threads=threads,
+                                  bound=bound, prio=1 if plain or threads > 1 else rng.choice([1, 2, 3])))
+    return S.new_scen(hosts, [], [], acts, events, [])
+
+
+def varying(sc):
+    """the capacity of a host changes during the scenario"""
+    return bool(sc["events"]) or any(h["sprof"] for h in sc["hosts"])
+
+
+def steps_bound(sc):
+    """crude upper bound of the number of profile change dates met while the workload runs (shapes the generator only:
+    a slow host with a short period makes a timeline of hundreds of steps)"""
+    worst = 0
+    for hi, h in enumerate(sc["hosts"]):
+        mine = [a for a in sc["acts"] if a["kind"] == "exec" and a["host"] == hi + 1]
+        if not mine or not h["sprof"]:
+            continue
+        low = min(h["speeds"]) * min([v for _, v in h["sprof"]["pts"]] + [F(1)])
+        length = max(a["start"] for a in mine) + sum(a["amount"] for a in mine) / low
+        p = h["sprof"]
+        worst += len(p["pts"]) * (length / p["period"] + 1 if p["period"] > 0 else 1)
+    return worst
+
+
 def gen_scenario(rng):
-    flavour = rng.choice(["cpu", "cpu", "net", "mixed", "disk", "equal"])
+    flavour = rng.choice(["cpu", "cpu", "net", "mixed", "disk", "equal", "avail", "avail", "eqavail"])
+    if flavour in ("avail", "eqavail"):
+        while True:
+            sc = gen_avail(rng, flavour == "eqavail")
+            if steps_bound(sc) <= 60:
+                return sc
     hosts, links, disks, acts = [], [], [], []
     if flavour in ("cpu", "mixed", "equal"):
         for _ in range(rng.randint(1, 2)):
@@ -84,7 +196,12 @@ def gen_scenario(rng):
 
 
 def brief(sc):
-    return {"hosts": [{"speed": str(h["speeds"][0]), "cores": h["cores"]} for h in sc["hosts"]],
+    def pf(p):
+        return None if not p else {"pts": [[str(t), str(v)] for t, v in p["pts"]], "period": str(p["period"])}
+    return {"hosts": [dict({"speed": str(h["speeds"][0]), "cores": h["cores"]},
+                           **({"pstates": [str(x) for x in h["speeds"]], "speed_profile": pf(h["sprof"])} if varying(sc) else {}))
+                      for h in sc["hosts"]],
+            "events": [[str(e["t"]), e["op"], e["a"], e["v"]] for e in sc["events"]],
             "links": [str(l["bw"]) for l in sc["links"]], "disks": [str(d["rbw"]) for d in sc["disks"]],
             "acts": [{"kind": a["kind"], "start": str(a["start"]), "amount": str(a["amount"]), "threads": a["threads"],
                       "bound": str(a["bound"]), "prio": a["prio"],
@@ -92,13 +209,52 @@ def brief(sc):
                      for a in sc["acts"]]}
 
 
+def io_slack(sc, obs, fin):
+    """The reference is a fluid timeline; the disk model rounds the progress of every step and I/O to whole bytes
+    (disk_s19.cpp). The reference itself tells (OBS.whole) up to which date every step moves whole bytes, i.e. up to which
+    date the two coincide exactly. Returns (t0, nbytes(k), seconds(i)): t0 = date of the first step that is not whole
+    (None: the whole scenario is exact); from t0 on, nbytes(k) bounds |remaining - reference| of an I/O after k steps and
+    seconds(i) the shift of the finish date of I/O i (0-based): half a byte per step and I/O (a completion that the
+    rounding splits in two makes one more step: at most one per activity), at most doubled by each completion of
+    another I/O of the same disk (a completion shifted by e / rate lets the m - 1 others progress by e / (m - 1) more or
+    less), divided by the smallest rate an I/O of that disk can have."""
+    t0 = None
+    for o in obs:
+        if o.get("_kind") == "OBS" and not o.get("whole", True):
+            t0 = S.frac(o["t"])
+            break
+    if t0 is None:
+        return None, None, None
+    steps = max(o["k"] for o in obs if o.get("_kind") == "OBS")
+    nio = {}
+    for a in sc["acts"]:
+        if a["kind"] == "io":
+            nio[a["disk"]] = nio.get(a["disk"], 0) + 1
+
+    def nbytes(k):
+        return F(k + len(sc["acts"]) + 1, 2) * 2 ** max(nio.values())
+
+    def seconds(i):
+        a = sc["acts"][i]
+        if a["kind"] != "io" or S.frac(fin["fin"][i]) < t0:
+            return 0
+        d = sc["disks"][a["disk"] - 1]
+        return nbytes(steps) / (min(d["rbw"], d["wbw"]) / nio[a["disk"]])
+    return t0, nbytes, seconds
+
+
 def mismatches(sc, obs, fin, recs):
-    bad = S.compare_acts(sc, fin, recs)
+    t0, io_bytes, io_seconds = io_slack(sc, obs, fin)
+    bad = S.compare_acts(sc, fin, recs, date_tol=io_seconds)
     nh, nl = len(sc["hosts"]), len(sc["links"])
     last = {}
     finish = {a["id"]: a for a in recs if a.get("e") == "act"}
     n = 0
+    during = None       # capacities (as the implementation reports them) in force since the last clock advance
     for r in recs:
+        if r.get("e") in ("cap0", "capchg"):
+            during = r["cap"]
+            continue
         if r.get("e") != "adv":
             continue
         t = r["t"]
@@ -114,9 +270,19 @@ def mismatches(sc, obs, fin, recs):
                         bad.append("t=%.17g activity %d completes with remaining work %.17g" % (t, aid, rem))
                 elif t < fa["finish"] and rem <= 0:
                     bad.append("t=%.17g activity %d: remaining work %.17g before its completion at %.17g" % (t, aid, rem, fa["finish"]))
+        # the load read when the clock has just moved is that of the elapsed interval: it is held against the capacity
+        # the implementation itself reported for that interval (the one read at this very moment already includes the
+        # profile points of the new date)
+        if during is None:
+            bad.append("t=%.17g: no capacity record before the first clock advance" % t)
+            during = r["cap"]
         for h in range(nh):
-            if F(r["hload"][h + 1]) > F(r["cap"][h + 1]) * (1 + CAP_TOL):
-                bad.append("t=%.17g host %d: load %.17g exceeds the capacity %.17g" % (t, h + 1, r["hload"][h + 1], r["cap"][h + 1]))
+            if F(r["hload"][h + 1]) > F(during[h + 1]) * (1 + CAP_TOL):
+                bad.append("t=%.17g host %d: load %.17g exceeds the capacity %.17g of the elapsed interval" %
+                           (t, h + 1, r["hload"][h + 1], during[h + 1]))
+            if not S.close(r["cap"][h + 1], F(r["peak"][h + 1]) * F(r["avail"][h + 1]) * sc["hosts"][h]["cores"]):
+                bad.append("t=%.17g host %d: garbled capacity record" % (t, h + 1))
+        during = r["cap"]
         o = S.find_obs(obs, t)
         if o is None or o.get("_kind") != "OBS":
             continue            # a date at which the reference has no step (nothing observable changes there)
@@ -124,13 +290,21 @@ def mismatches(sc, obs, fin, recs):
         for sid, rem in r["rem"].items():
             aid = int(sid)
             a = sc["acts"][aid - 1]
-            tol = F(0)
+            # (I/Os, from the first step of the reference that does not move whole bytes on: see io_slack)
+            tol = io_bytes(o["k"]) if t0 is not None and a["kind"] == "io" and S.frac(o["t"]) >= t0 else F(0)
             if not S.close(rem, S.frac(o["rem"][aid - 1]), absolute=tol) and o["was"][aid - 1] in ("run", "susp", "lat"):
                 bad.append("t=%.17g activity %d (%s): remaining %.17g, reference %s = %.17g" %
                            (t, aid, a["kind"], rem, S.frac(o["rem"][aid - 1]), float(S.frac(o["rem"][aid - 1]))))
         for h in range(nh):
             if not S.close(r["hload"][h + 1], S.frac(o["hload"][h]), absolute=F(1, 10 ** 12)):
                 bad.append("t=%.17g host %d: load %.17g, reference %s" % (t, h + 1, r["hload"][h + 1], S.frac(o["hload"][h])))
+            if F(r["hload"][h + 1]) > S.frac(o["hcap"][h]) * (1 + CAP_TOL):
+                bad.append("t=%.17g host %d: load %.17g exceeds the capacity %s of the elapsed interval (cores x peak speed x availability)" %
+                           (t, h + 1, r["hload"][h + 1], S.frac(o["hcap"][h])))
+            # current capacity: the availability scale and the capacity read at this date are those of the reference
+            if not S.close(r["avail"][h + 1], S.frac(o["hscale"][h])) or not S.close(r["cap"][h + 1], S.frac(o["hcapnow"][h])):
+                bad.append("t=%.17g host %d: availability %.17g, capacity %.17g, reference %s and %s" %
+                           (t, h + 1, r["avail"][h + 1], r["cap"][h + 1], S.frac(o["hscale"][h]), S.frac(o["hcapnow"][h])))
         for l in range(nl):
             if not S.close(r["lload"][l], S.frac(o["lload"][l]), absolute=F(1, 10 ** 12)):
                 bad.append("t=%.17g link %d: load %.17g, reference %s" % (t, l + 1, r["lload"][l], S.frac(o["lload"][l])))
@@ -141,7 +315,7 @@ def mismatches(sc, obs, fin, recs):
 
 def run(ctx):
     import os
-    n = 200 if ctx.quick else 2000
+    n = 300 if ctx.quick else 3000
     if os.environ.get("SURF_DEV_N"):
         n = int(os.environ["SURF_DEV_N"])
     scens = [gen_scenario(ctx.rng) for _ in range(n)]
@@ -161,9 +335,24 @@ def run(ctx):
     results = S.run_many(ctx, jobs)
     ctx.cov["traces_validated_against_impl"] += len(results)
     ndates = 0
+    nvary = nsat = nresh = nfrac = 0
     for k, i in enumerate(ids):
         sc = scens[i]
         ctx.count(S.scen_json(sc), nontrivial=len(sc["acts"]) > 1)
+        if any(o.get("_kind") == "OBS" and not o.get("whole", True) for o in obs[i]):
+            nfrac += 1
+        if varying(sc):
+            nvary += 1
+            # measured on the reference: steps whose elapsed interval saw a host saturated at a capacity other than the
+            # initial one, and steps at which the capacity of a host running something changes (execs re-shared)
+            for o in obs[i]:
+                if o.get("_kind") != "OBS":
+                    continue
+                for h, hs in enumerate(sc["hosts"]):
+                    if o["hload"][h][0] > 0 and o["hload"][h] == o["hcap"][h] and S.frac(o["hcap"][h]) != hs["speeds"][0] * hs["cores"]:
+                        nsat += 1
+                    if o["hload"][h][0] > 0 and o["hcapnow"][h] != o["hcap"][h]:
+                        nresh += 1
         bad, nd = mismatches(sc, obs[i], fin[i], results[k])
         ndates += nd
         if not bad:
@@ -183,12 +372,28 @@ def run(ctx):
                       signature="C21:%s" % vlib.canon_hash(S.scen_json(sc)),
                       detail=json.dumps(brief(sc)) + "\n" + " ".join(jobs[k][1]) + "\n" + "\n".join(bad2[:20]))
     ctx.cov["event_dates_compared"] = ndates
-    ctx.cov["rule"] = ("workloads drawn from VERIF_SEED, six flavours: cpu (1-2 hosts, 1-4 cores, execs with bounds / priorities / threads), "
+    ctx.cov["io_scenarios_leaving_whole_bytes"] = nfrac
+    ctx.cov["scenarios_with_changing_capacity"] = nvary
+    ctx.cov["steps_saturated_at_changed_capacity"] = nsat
+    ctx.cov["steps_capacity_changes_under_load"] = nresh
+    ctx.cov["rule"] = ("workloads drawn from VERIF_SEED, eight flavours: cpu (1-2 hosts, 1-4 cores, execs with bounds / priorities / threads), "
                        "net (1-3 links, comms over random multi-link routes), mixed, disk (I/Os sharing 1-2 disks), equal (k = 1..7 equal "
-                       "single-thread execs on one n-core host); 2-7 activities with start dates on a 1/8 s grid; update algorithms alternate "
-                       "over Lazy/Full; observation at every on_time_advance; non-trivial = at least two activities")
+                       "single-thread execs on one n-core host), and - a third of the scenarios - hosts whose capacity changes over time: "
+                       "avail (1-2 hosts, 1-4 cores, 1-3 pstates, a speed profile of 1-4 points on the 1/8 s grid with scales 1/8..1, in half "
+                       "of the cases < 1 from date 0, one-shot or periodic, and / or 1-3 scripted Host::set_pstate; cores..cores+3 execs (1..4 per host when there are two hosts), "
+                       "mostly single-core and unbounded, some with bounds / priorities / threads) and eqavail (k equal single-core execs, "
+                       "k > n in 80% of the cases, on such a host); 1-8 activities with start dates on a 1/8 s grid; update algorithms "
+                       "alternate over Lazy/Full; observation at every on_time_advance; non-trivial = at least two activities")
     ctx.assumptions += ["disk workloads use equal read/write bandwidths 3*2^k and at most four I/Os per disk: the disk model rounds the progress "
-                        "of every step to whole bytes (disk_s19.cpp), these parameters keep every step integral so that the exact comparison "
-                        "applies; disk loads are not observable through the public API and are not compared",
+                        "of every step to whole bytes (disk_s19.cpp); these parameters keep most steps integral and the reference itself "
+                        "tells (Timeline!whole) up to which step they are: up to there the comparison is exact (1e-9), from there on the "
+                        "I/Os of that scenario are compared within the bound derived from the rounding (half a byte per step and I/O, "
+                        "doubled by each completion on the same disk; see io_slack); disk loads are not observable through the public API "
+                        "and are not compared",
                         "the sharing rule of the reference (weighted max-min) is the documented one; C15-C18 decide the solver itself",
-                        "tolerance 1e-9 relative on remaining work, loads and dates"]
+                        "tolerance 1e-9 relative on remaining work, loads and dates",
+                        "Host::get_load read when the clock has just moved is the load of the elapsed interval (the rates are recomputed "
+                        "by the next solve): it is held against the capacity of that interval, not against the capacity read at the same "
+                        "moment, which already includes the profile points of the new date",
+                        "profile points of date 0 act on the executions from date 0 on (on platforms built through the C++ API the values "
+                        "*read* at date 0 are still the initial ones: recorded deviation C22:date-0, nothing is read at date 0 here)"]
